@@ -42,29 +42,53 @@ M = {
  "C01b-m2": ("C01", "IFMA F51x4Reduced::square pre-doubles x0 (madd52 reads only the low 52 bits)", "nightly unstable_avx512 build on an avx512ifma CPU; a reduced limb at or above 2^51", {"C01": "caught (v512 vec.op1 square on limbs produced by reduce at 2^51)"}),
  "C02b-m1": ("C02", "Scalar52::from_bytes_wide fuses the two Montgomery reductions (exceeds the reducer's input bound)", "low 260 bits within 0.2% of 2^260, large high part: about 1 in 1.2 million random inputs", {"C02": "caught by the reducer-bound family added after reading this change's class (first run: 1 hit of 400; family enlarged to 4000: 3+ hits); AP_MontReduce52 states the bound for the specification"}),
  "C02b-m2": ("C02", "Scalar52::sub masks (b[i] + borrow) to 52 bits: the borrow chain stops at an all-ones limb", "a subtrahend with an all-ones 52-bit limb and a borrow arriving from below (2^104-1 ...)", {"C02": "caught (systematic special-vs-fixed subtraction pairs)"}),
- "C03b-m1": ("C03", "serial ProjectivePoint::as_extended returns (X, Y, Z, XY): T inconsistent unless Z = 1", "serial build; result of vartime double-base / Straus used as an operand later", {}),
- "C03b-m2": ("C03", "IFMA Neg for &CachedPoint uses Shuffle::BADC instead of BACD", "nightly unstable_avx512 build on an avx512ifma CPU; any negative-digit path", {}),
  "C04b-m1": ("C04", "LookupTableRadix64 scans 1..32 instead of 1..33: select(+-32) returns the identity", "the radix-64 basepoint table and a scalar whose radix-64 recoding has the digit -32", {"C04": "caught (ed.table_static radix 64 on the digit-class scalars)"}),
  "C04b-m2": ("C04", "serial precomputed Straus starts at the highest non-zero STATIC NAF digit only", "serial backend; a mixed call whose dynamic scalars are longer than every static scalar (or no static scalars)", {"C04": "caught (ed.precomputed with fewer / shorter static scalars)"}),
  "C06b-m1": ("C06", "double_and_compress_batch replaces a zero e*f*g*h by one before the batch inversion", "the identity held as the 4-torsion representative (+-i, 0): P - decode(encode(P))", {"C06": "caught (batch on identity representatives O2, O3 built by torsion_translate)"}),
  "C06b-m2": ("C06", "u32 SQRT_AD_MINUS_ONE replaced by the other root (p - value)", "32-bit limb build; from_uniform_bytes / from_hash / random return the negated element", {"C06": "caught in the thorough tier (s32 build)", "C12": "caught in the quick tier (const.dump on s32)", "C05": "caught (s32 differs from the other configurations)"}),
- "C11b-m1": ("C11", "(round 2, see README)", "(see README)", {}),
- "C11b-m2": ("C11", "(round 2, see README)", "(see README)", {}),
+ "C03b-m1": ("C03", "serial ProjectivePoint::as_extended returns (X, Y, Z, XY): T inconsistent unless Z = 1", "serial build; result of vartime double-base / Straus used as an operand later", {}),
+ "C03b-m2": ("C03", "IFMA Neg for &CachedPoint uses Shuffle::BADC instead of BACD", "nightly unstable_avx512 build on an avx512ifma CPU; any negative-digit path", {}),
+ "C07b-m1": ("C07", "EphemeralSecret::diffie_hellman multiplies by the clamped scalar reduced mod l", "a peer key outside the prime-order subgroup (twist, small order, their aliases)", {}),
+ "C07b-m2": ("C07", "mul_bits_be: the final conditional swap moved under cfg(feature = \"zeroize\")", "a build of curve25519-dalek without the zeroize feature and an odd scalar / bit string", {"C07": "MISSED at first (no build without zeroize; then a .nz build that still had it through ed25519-dalek's alloc feature); caught by the s64+t.nz build (mont.mul)"}),
+ "C08b-m1": ("C08", "raw_sign_prehashed leaves the context out of the nonce hash (challenge hash unchanged; nonce reuse across contexts)", "digest feature, non-empty context, comparison with RFC 8032", {}),
+ "C08b-m2": ("C08", "hazmat raw_sign_prehashed no longer refuses contexts longer than 255 bytes (check moved to SigningKey)", "hazmat + digest features, the ExpandedSecretKey entry point, a context of 256 or more bytes", {}),
+ "C09b-m1": ("C09", "strict check_scalar fast path tests 3 top bits instead of 4: S in [l, 2^253) accepted", "an adversarial non-canonical S below 2^253", {}),
+ "C09b-m2": ("C09", "legacy check_scalar tests the top bits after from_bits has cleared bit 255", "legacy_compatibility feature, S with bit 255 set", {}),
+ "C11b-m1": ("C11", "AVX2 square_and_negate_D negates lane D with 2^36 p instead of 2^37 p", "AVX2; lane D with all limbs near the documented bound b < 1.5 (no public operation feeds more than b < 1.01)", {"C01": "MISSED at first (C01 did not start the AVX2 kernels at their pre-bounds); caught after C11's raw-lane family was added to C01"}),
+ "C11b-m2": ("C11", "u32 FieldElement2625::negate subtracts from 2p instead of 16p", "32-bit serial build; an unreduced sum (b about 1) negated, e.g. inside double_and_compress_batch on the 2-torsion point", {}),
+ "C14b-m1": ("C14", "vector Straus collects the radix-16 digits with Vec::push inside Zeroizing (regrowth frees unwiped buffers)", "vector backend, n >= 5 scalars", {}),
+ "C14b-m2": ("C14", "EdwardsPoint::zeroize forgets the T coordinate", "inspection of the wiped point's memory (==, compress() do not read T)", {"C14": "MISSED at first (the zeroized value was judged through compress()); caught after mem.zeroize compares the object's storage"}),
+ "C15b-m1": ("C15", "MontgomeryPoint::to_edwards returns None when the decompressed x has the wrong sign (u = 0, sign = 1): Elligator's expect() panics", "digest feature; a hash prefix encoding r = 0 with bit 255 set; also to_edwards(1) on u = 0", {}),
+ "C15b-m2": ("C15", "CompressedRistretto::from_slice indexes bytes[..32]: short slices panic, long ones are truncated", "a slice whose length is not 32", {}),
+ "C16b-m1": ("C16", "Edwards serde visitors zero-pad short sequences", "serde feature, a self-describing format (JSON), fewer than 32 elements", {}),
+ "C16b-m2": ("C16", "StaticSecret clamps on construction and deserialises through it", "serde + static_secrets features, comparison with the raw bytes", {}),
+ "C11-own1": ("C11", "IFMA negate_lazy back to 16p (reverts the repair f2e2f15)", "nightly unstable_avx512 build on an avx512ifma CPU; product operands with all limbs next to 2^51 (tools/ifma_extreme.json)", {}),
  "C10-own1": ("C10", "LookupTable::select reads the entry by direct index (own seeded change from the design's appendix, not from a sub-agent)", "any secret digit", {"C10": "caught (lock-step traces of ed.mul_base diverge)"}),
 }
+# measured results: seeded/RESULTS.log (appended by tools/run_seeded.sh); the latest line per (change, check, tier) counts
 EXTRA = {}
-if os.path.exists("/tmp/seeded_results_auto.json"):
-    auto = json.load(open("/tmp/seeded_results_auto.json"))
-    for sid, d in auto.items():       # measured results fill in only where no curated text exists
-        cur = M.get(sid, (None, None, None, {}))[3]
-        EXTRA[sid] = {k: v for k, v in d.items() if k not in cur}
+RL = os.path.join(S, "RESULTS.log")
+if os.path.exists(RL):
+    latest = {}
+    for line in open(RL):
+        m = re.match(r"^(\S+) (\S+) (\S+) (C\d+) tier=(\w+) rc=(\d+) (\d+) violations; ?(.*)$", line.strip())
+        if m:
+            ts, commit, sid, chk, tier, rc, nv, first = m.groups()
+            latest[(sid, chk, tier)] = (rc, first, commit)
+    for (sid, chk, tier), (rc, first, commit) in sorted(latest.items()):
+        txt = {"0": "not caught", "1": "caught", "2": "tool error"}.get(rc, "rc=" + rc) + " in the %s tier" % tier + (" (%s)" % first if first and rc == "1" else "") + " [machinery %s]" % commit
+        d = EXTRA.setdefault(sid, {})
+        if chk in d and "caught in the quick" in d[chk] and tier == "thorough":
+            continue
+        d[chk] = (d[chk] + "; " if chk in d else "") + txt
 rows = []
 for sid, (prop, what, needs, res) in sorted(M.items()):
     d = os.path.join(S, sid)
     if not os.path.isdir(d):
         continue
     res = dict(res)
-    res.update(EXTRA.get(sid, {}))
+    for k, v in EXTRA.get(sid, {}).items():
+        res[k] = (res[k] + " - measured: " + v) if k in res else v
     conf = ""
     cl = os.path.join(d, "confirm.log")
     if os.path.exists(cl):
